@@ -448,6 +448,10 @@ func (tx *tableEx) callTerm(c *ssa.Call, idx int, v ssa.Value, row *PathRow, dep
 	if isCtxErrCall(c) {
 		return tx.atom("ctx.Err()", v, "nilness", []int64{0, 1})
 	}
+	// a freshly constructed error is never nil
+	if q := calleeQualified(&c.Call); q == "errors.New" || q == "fmt.Errorf" || (callee != nil && tx.p.isErrCtor(callee)) {
+		return &Term{Kind: "fresh", Note: c.Name()}
+	}
 	if dom, kind := tx.domainOf(v); dom != nil {
 		key := fmt.Sprintf("%s#%d", c.Name(), idx)
 		t := tx.atom(key, v, kind, dom)
@@ -478,6 +482,8 @@ func (tx *tableEx) eval(t *Term, as Assign, depth int) Val {
 		return Val{Kind: "int", K: t.K}
 	case "nil":
 		return Val{Kind: "nil"}
+	case "fresh":
+		return Val{Kind: "ref", Ref: "fresh:" + t.Note}
 	case "atom":
 		ai := tx.atoms[t.Atom]
 		k, ok := as[t.Atom]
